@@ -6,6 +6,9 @@
     48 BA imm64       REX.W MOV RDX, imm64
     FF 22             JMP qword ptr [RDX]
     E9 rel32          JMP rel32            (target = address of next instruction + sign-extended rel32)
+    FF 25 00000000 q  JMP qword ptr [RIP+0] ; .quad q   (the pointer is read from the 8 bytes that follow the instruction,
+                      i.e. from the sequence itself — `bs` is what memory holds at `m.rip`; not emitted by goom today,
+                      it is the register-free absolute jump of the drafted repair F27-c15, see Findings/C15F5.lean)
 
   `exec bs m` runs the straight-line sequence `bs` placed at `m.rip`, up to and including its final jump.
   It returns `none` if the bytes are not such a sequence.  Only RIP and RDX can change: every other piece
@@ -38,6 +41,10 @@ def exec : List (BitVec 8) → Mach → Option Mach
     else if op = 0xFF#8 then
       match rest with
       | [modrm] => if modrm = 0x22#8 then some { m with rip := m.mem64 m.rdx } else none
+      | [modrm, d0, d1, d2, d3, b0, b1, b2, b3, b4, b5, b6, b7] =>
+        if modrm = 0x25#8 ∧ d0 = 0#8 ∧ d1 = 0#8 ∧ d2 = 0#8 ∧ d3 = 0#8 then
+          some { m with rip := BitVec.ofNat 64 (leNat [b0, b1, b2, b3, b4, b5, b6, b7]) }
+        else none
       | _ => none
     else if op = 0xE9#8 then
       match rest with
